@@ -320,6 +320,45 @@ func main() {
 		run.Add("slow-upstream", vh.App("CServe", vh.Z(x.s.limit), vh.Z(x.s.delay), vh.Z(int64(x.ust)), vh.Z(int64(x.status)), vh.Z(x.elapsed), vh.Z(3000)),
 			map[string]interface{}{"limit_ms": x.s.limit, "delay_ms": x.s.delay, "upstream_status": x.ust, "client_status": x.status, "elapsed_ms": x.elapsed})
 	}
+	// 5. the dial timeout in action for each kind of transport NewTransport builds: the default one, the
+	// skip-verify one (main.go InsecureTransport) and a per-route host-override transport.  1 ns cannot
+	// be met even on loopback; 5 s always is.
+	for _, lim := range []int64{1, int64(5 * time.Second)} {
+		mu.Lock()
+		transport.SetConfig(limits{dial: lim}.cfg())
+		plain := transport.NewTransport(nil)
+		insecure := transport.NewTransport(&tls.Config{InsecureSkipVerify: true})
+		for kind := 0; kind < 3; kind++ {
+			ust := []int{200, 201, 404}[r.Intn(3)]
+			h := http.HandlerFunc(func(w http.ResponseWriter, rq *http.Request) { w.WriteHeader(ust) })
+			var up *httptest.Server
+			opts := ""
+			switch kind {
+			case 0:
+				up = httptest.NewServer(h)
+			case 1:
+				up = httptest.NewTLSServer(h)
+				opts = ` opts "tlsskipverify=true"`
+			case 2:
+				up = httptest.NewTLSServer(h)
+				opts = ` opts "host=upstream.example tlsskipverify=true"` // gets its own transport from route.go
+			}
+			tbl, err := route.NewTable(bytes.NewBufferString("route add mock / " + up.URL + opts))
+			if err != nil {
+				panic(err)
+			}
+			p := &proxy.HTTPProxy{Transport: plain, InsecureTransport: insecure, Lookup: func(rq *http.Request) *route.Target {
+				return tbl.Lookup(rq, "", route.Picker["rr"], route.Matcher["prefix"], nil, true)
+			}}
+			rec := httptest.NewRecorder()
+			p.ServeHTTP(rec, httptest.NewRequest("GET", "http://front/", nil))
+			up.Close()
+			run.Add("dial-timeout", vh.App("CDial", vh.N(kind), vh.Z(lim), vh.Z(1000), vh.Z(int64(ust)), vh.Z(int64(rec.Code))),
+				map[string]interface{}{"transport": []string{"default", "skip-verify", "per-route host override"}[kind], "dial_timeout_ns": lim, "upstream_status": ust, "client_status": rec.Code})
+		}
+		mu.Unlock()
+	}
+	transport.SetConfig(limits{}.cfg())
 	run.Finish(preamble, run.Scale(40, 400))
 }
 
